@@ -246,8 +246,8 @@ impl Check for C10 {
     }
     fn count(&self, tier: Tier) -> u64 {
         match tier {
-            Tier::Quick => 12_000,
-            Tier::Thorough => 600_000,
+            Tier::Quick => 80_000,
+            Tier::Thorough => 2_500_000,
         }
     }
     fn generate(&self, rng: &mut Rng, _index: u64, _tier: Tier) -> C10Sc {
@@ -268,6 +268,9 @@ impl Check for C10 {
         rep.trace_hash = rep.trace_hash.rotate_left(17) ^ o2.trace_hash();
         rep.full_hash = rep.full_hash.rotate_left(17) ^ o2.full_hash();
         rep.nontrivial = s2.client.auth_cookie.is_some();
+        let mut h = crate::rng::Fnv(rep.trace_hash);
+        h.write_str(&format!("{:?}|{:?}|{}|{}|{}|{}", sc.first.cfg.secret.as_ref().map(|s| s.len()), sc.first.cfg.expiry, sc.gap_s.signum(), sc.gap_s.unsigned_abs().min(100_000) / 1000, sc.present_session, sc.second_port_xor == 0));
+        rep.trace_hash = h.0;
         if sc.gap_s < 0 {
             *rep.faults.entry("wall_clock_stepped_back".into()).or_insert(0) += 1;
         }
